@@ -63,17 +63,17 @@ def run(ctx):
     thorough = ctx.tier == "thorough"
     ctx._core_bin = ctx.go_test_build("pipeline")
     # 1. BatcherProto
-    ctx.tlc_expect_ok("BatcherProto", "BatcherProto_base.cfg", timeout=900, deadlock=False, name="BatcherProto/no-stop")
-    ctx.tlc_expect_ok("BatcherProto", "BatcherProto_base.cfg", timeout=900, deadlock=False,
+    ctx.tlc_expect_ok("BatcherProto", "BatcherProto_base.cfg", timeout=2700, deadlock=False, name="BatcherProto/no-stop")
+    ctx.tlc_expect_ok("BatcherProto", "BatcherProto_base.cfg", timeout=2700, deadlock=False,
                       overrides={"Sizes": "{1, 2}", "BatchBytes": "3", "BatchCount": "0"}, name="BatcherProto/bytes")
-    ctx.tlc_expect_ok("BatcherProto", "BatcherProto_stop.cfg", timeout=900, deadlock=False, name="BatcherProto/stop (send under the lock)")
-    d9 = ctx.tlc("BatcherProto", "BatcherProto_stop.cfg", timeout=600, deadlock=False, overrides={"SendUnderLock": "FALSE"},
+    ctx.tlc_expect_ok("BatcherProto", "BatcherProto_stop.cfg", timeout=2700, deadlock=False, name="BatcherProto/stop (send under the lock)")
+    d9 = ctx.tlc("BatcherProto", "BatcherProto_stop.cfg", timeout=1800, deadlock=False, overrides={"SendUnderLock": "FALSE"},
                  name="BatcherProto/stop send-after-unlock (mutant = the defect D9 repaired in 08b19bf)")
     if d9.ok or d9.violated != "StopSafe":
         raise vlib.Infra("spec with the send after mu.Unlock does not reach the closed-channel send (violated=%s)" % d9.violated)
     for sw, cfgname, inv in (("M_HeartbeatOneSection", "BatcherProto_base.cfg", "HandOverOnce"),
                              ("M_StopLeavesPartial", "BatcherProto_stop.cfg", "CommitInSeqOrder")):
-        m = ctx.tlc("BatcherProto", cfgname, timeout=600, deadlock=False, overrides={sw: "FALSE"}, name="BatcherProto/%s off (mutant)" % sw)
+        m = ctx.tlc("BatcherProto", cfgname, timeout=1800, deadlock=False, overrides={sw: "FALSE"}, name="BatcherProto/%s off (mutant)" % sw)
         if m.ok or m.violated != inv:
             raise vlib.Infra("spec with %s off is not rejected by %s (violated=%s)" % (sw, inv, m.violated))
     # 2a. direct scenarios -> trace validation
@@ -83,7 +83,7 @@ def run(ctx):
         for s in scs:
             f.write(json.dumps(s) + "\n")
     trace = os.path.join(ctx.scratch, "c08_trace.ndjson")
-    rc, txt = ctx.run_bin(ctx._core_bin, "^TestVerifC08Direct$", env={"VERIF_CASES": cases, "VERIF_OUT": trace}, timeout=1200)
+    rc, txt = ctx.run_bin(ctx._core_bin, "^TestVerifC08Direct$", env={"VERIF_CASES": cases, "VERIF_OUT": trace}, timeout=3600)
     if rc != 0 or not os.path.exists(trace):
         crash = core.classify_crash(txt)
         if crash is None:
@@ -107,7 +107,7 @@ def run(ctx):
     # 2b. Stop vs Add
     out = os.path.join(ctx.scratch, "c08_stop.json")
     rc, txt = ctx.run_bin(ctx._core_bin, "^TestVerifC08Stop$", env={"VERIF_OUT": out, "VERIF_C08_STOP": "1", "VERIF_C08_TRIALS": 2000 if thorough else 300},
-                          timeout=900)
+                          timeout=2700)
     if rc != 0 or not os.path.exists(out):
         raise vlib.Infra("C08 stop harness failed rc=%s:\n%s" % (rc, txt[-3000:]))
     st = json.load(open(out))
